@@ -1,3 +1,4 @@
 pub mod asm;
 pub mod c02;
 pub mod c13;
+pub mod valsim;
